@@ -35,6 +35,7 @@ from engine import c03_walk
 from engine.common import setup_paths
 
 PROPERTY = 'C03'
+SECOND_PASS = ('run_cases',)     # see engine/common._run_shard
 LEVEL = 'exploration'
 EXHAUSTIVE = True
 RULE = ('every parameter tuple of the stated boxes, every labelled graph / DAG / '
